@@ -627,16 +627,14 @@ def build_nonsmooth(pd):
     # ---- x*: raw values, then make the chosen rows of the L_i vanish
     xs = float(pd.get('xscale', 1.0))
     xraw = np.round(rng.standard_normal(n) * xs, 3)
-    pos = pd.get('xclass', 'free') == 'pos'
+    pos = pd.get('xclass', 'free') == 'pos' or pd['phi']['kind'] == 'nonneg'
     if pos:
         xraw = np.abs(xraw) + 0.2 * xs
     rows = []
     budget = n - 1
     phi_fd = pd['phi']
     pk = phi_fd['kind']
-    if zero_cert and pk in KINKED:
-        raise HarnessError('zero certificate: phi must not be norm-like')
-    if pk in ('l1', 'nonneg', 'groupl1', 'l2') and not zero_cert:
+    if pk in ('l1', 'nonneg', 'groupl1', 'l2'):
         jz = _partial_rows('l1' if pk == 'nonneg' else pk, n, rng, budget, X)
         if len(jz):
             rows.append(np.eye(n)[jz])
@@ -684,7 +682,7 @@ def build_nonsmooth(pd):
     P.xstar = xstar = xz
     P.phi_fd = phi_fd
     P.phi_data, P.sstar, P.phi_active = certificate(
-        phi_fd, X, dX, xstar, rng, zero_cert=zero_cert, zero_tol=0.0)
+        phi_fd, X, dX, xstar, rng, zero_cert=False, zero_tol=0.0)
     P.phi = make_functional(phi_fd, X, P.phi_data)
     c += P.sstar
 
